@@ -22,6 +22,7 @@ class SigintHandler(Contract):
     tu = 'src/IO/Display.cpp'
     params = ['sig']
     tags = {'C14'}
+    replay = lambda self, o, model, pid: {'driver': 'main', 'scenarios': ['interrupt']}
     plain_abort = True
 
     def assigns(self, cx):
@@ -59,6 +60,7 @@ class SignalSetup(Contract):
     tu = 'src/main.cpp'
     tu_filter = 'main'
     tags = {'C14'}
+    replay = lambda self, o, model, pid: {'driver': 'main', 'scenarios': ['interrupt']}
 
     def custom_verify(self, scratch, tc):
         tu = tc.get(self.tu, self.tu_filter)
@@ -128,6 +130,26 @@ class SignalSetup(Contract):
             else:
                 ob('handler_is_SIGINT_handler', hname == 'SIGINT_handler', f'SIGINT is bound to Display::SIGINT_handler (found {hname})')
                 ob('handler_stays_installed', api in ('signal', 'bsd_signal'), f'{api}: BSD semantics on glibc (handler stays installed, system calls restarted); sysv_signal would reset it')
+        # a request recorded by the handler is never taken back: main may raise the flag itself (e.g. when the results file
+        # cannot be created) but every store into Display::abort writes the constant true.  Anything else can overwrite an
+        # interrupt that arrived earlier (the signal can arrive between any two statements after the installation)
+        stores = []
+        for s_ in stmts:
+            for n in _walk(s_):
+                if n.get('kind') in ('BinaryOperator', 'CompoundAssignOperator') and (n.get('opcode') or '').endswith('=') and n.get('opcode') not in ('==', '!=', '<=', '>='):
+                    lhs = n['inner'][0]
+                    while lhs.get('kind') in ('ParenExpr', 'ImplicitCastExpr'):
+                        lhs = lhs['inner'][0]
+                    nm = lhs.get('name') if lhs.get('kind') == 'MemberExpr' else (lhs.get('referencedDecl') or {}).get('name')
+                    if nm != 'abort':
+                        continue
+                    r = n['inner'][1]
+                    while r.get('kind') in ('ParenExpr', 'ImplicitCastExpr'):
+                        r = r['inner'][0]
+                    stores.append((line_of(n), n.get('opcode') == '=' and r.get('kind') == 'CXXBoolLiteralExpr' and r.get('value') is True))
+                if n.get('kind') == 'UnaryOperator' and n.get('opcode') in ('++', '--') and any((x.get('referencedDecl') or {}).get('name') == 'abort' or x.get('name') == 'abort' for x in _walk(n)):
+                    stores.append((line_of(n), False))
+        ob('request_never_cleared', all(ok_ for _, ok_ in stores), f'every store into Display::abort in main writes the constant true (stores at lines {[l for l, _ in stores]}, not constant-true: {[l for l, k_ in stores if not k_]})')
         ex.obls = obls + [Obligation('main#signal.canary', set(), [], z3.BoolVal(False), 'canary', None, '')]
         info = {'unit': 'main (signal installation)', 'file': self.tu, 'sha': tu.sha, 'cases': 1, 'lines': [line_of(stmts[sigint[0][0]]) if sigint else None] * 2,
                 'extract_s': 0, 'facts': {'installs': [list(map(str, t)) for t in installs], 'sa_flags': [str(v) for v in flag_stores], 'sa_handler': handler_stores}}
